@@ -7,6 +7,7 @@ import (
 	"github.com/tdakkota/docker-logql/internal/logql"
 	"github.com/tdakkota/docker-logql/internal/zzverif/mockq"
 	"sort"
+	"strings"
 
 	"github.com/tdakkota/docker-logql/internal/logql/logqlengine"
 	"github.com/tdakkota/docker-logql/internal/zzverif/refmodel"
@@ -27,6 +28,8 @@ type c19Input struct {
 var c19Dup = []mockq.Rec{
 	{TS: 1 * sec, Line: "tick a"}, {TS: 1 * sec, Line: "tock b"}, {TS: 1 * sec, Line: "tick a"},
 	{TS: 2 * sec, Line: "a"}, {TS: 2 * sec, Line: "a"}, {TS: 2 * sec, Line: "b"}, {TS: 3 * sec, Line: "ab"}, {TS: 2 * sec, Line: "a"},
+	// lines far longer than any buffer or search window a filter might use, the needle at the very end or nowhere
+	{TS: 4 * sec, Line: strings.Repeat("z", 70000) + "a"}, {TS: 5 * sec, Line: strings.Repeat("z", 70000)}, {TS: 6 * sec, Line: strings.Repeat("y ", 40000) + "=b"},
 }
 
 var c19Bases = []string{
@@ -66,10 +69,10 @@ func c19Filters() []c19Filter {
 	for _, s := range []string{"10.0.0.1", "10.0.0.1-10.0.0.5", "10.0.0.0/24", "::1", "192.168.0.0/16", "fe80::/10", "ff00::/8"} {
 		out = append(out, c19Filter{text: `|= ip("` + s + `")`, neg: `!= ip("` + s + `")`})
 	}
-	for _, m := range [][2]string{{"app", "x"}, {"y", "a"}, {"y", ""}, {"env", "p"}, {"missing", ""}, {"msg", "a"}, {"x", "007"}, {"x", "5.0"}, {"y", "b"}} {
+	for _, m := range [][2]string{{"tags", "a"}, {"tags", `[]`}, {"app", "x"}, {"y", "a"}, {"y", ""}, {"env", "p"}, {"missing", ""}, {"msg", "a"}, {"x", "007"}, {"x", "5.0"}, {"y", "b"}} {
 		out = append(out, c19Filter{text: `| ` + m[0] + `="` + m[1] + `"`, neg: `| ` + m[0] + `!="` + m[1] + `"`, pred: m[0] + `="` + m[1] + `"`})
 	}
-	for _, m := range [][2]string{{"app", "x|y"}, {"y", "a.*"}, {"y", ".*"}, {"env", ".+"}, {"x", "\\\\d+"}, {"x", "0.*|1e1"}} {
+	for _, m := range [][2]string{{"tags", "a"}, {"tags", ".*a.*"}, {"app", "x|y"}, {"y", "a.*"}, {"y", ".*"}, {"env", ".+"}, {"x", "\\\\d+"}, {"x", "0.*|1e1"}} {
 		out = append(out, c19Filter{text: `| ` + m[0] + `=~"` + m[1] + `"`, neg: `| ` + m[0] + `!~"` + m[1] + `"`, pred: m[0] + `=~"` + m[1] + `"`})
 	}
 	// the negated matchers as predicates of their own (operands of and / or, also on the label of the other operand)
